@@ -600,7 +600,7 @@ class TermBuilder:
         self._stack.append(sk)
         try:
             if kind == "clobber":
-                return ("clobber", l)
+                return self._clobber_term(l, b, i)
             if kind == "stmt":
                 return self.rvalue(obj.rv, b, i)
             if kind == "call":
@@ -638,6 +638,40 @@ class TermBuilder:
                 self._stack.pop()
             fields = [(n, v if n == name else x) for n, x in fields]
         return ("adt", t[1], t[2], tuple(fields))
+
+    def _clobber_term(self, l, b, i):
+        """value of local l after `&mut l` (created at statement i of block b) was handed to a callee.
+        For a crate-local callee the result is the deterministic symbol  <callee>::out<k>(args...)  (the callee's
+        out-parameter as a function of its inputs); for anything else it stays an opaque clobber."""
+        fn = self.fn
+        blk = fn.blocks[b]
+        st = blk.stmts[i]
+        ref_local = st.place.local if st.place.is_local() else None
+        t = blk.term
+        if ref_local is None or t.k != "call" or not t.callee_is_local() or self.prog is None or self.prog.fn(t.callee()) is None:
+            return ("clobber", l)
+        # follow `_a = &mut (*_r)` reborrows inside the block
+        aliases = {ref_local}
+        for sj in range(i + 1, len(blk.stmts)):
+            s2 = blk.stmts[sj]
+            if s2.k == "assign" and s2.place.is_local() and s2.rv.k in ("ref", "use") and (s2.rv.place or (s2.rv.ops[0].place if s2.rv.ops else None)) is not None:
+                pl = s2.rv.place or s2.rv.ops[0].place
+                if pl.local in aliases:
+                    aliases.add(s2.place.local)
+        argi = None
+        for k, a in enumerate(t.args):
+            if a.place is not None and a.place.is_local() and a.place.local in aliases:
+                argi = k
+        if argi is None:
+            return ("clobber", l)
+        before = self.local(l, b, i)   # value of l before the borrow
+        args = []
+        for k, a in enumerate(t.args):
+            if k == argi:
+                args.append(before)
+            else:
+                args.append(self.operand(a, b, len(blk.stmts)))
+        return ("call", "%s::out%d" % (t.callee(), argi + 1), tuple(args))
 
     def place(self, p, bb, idx, ignore_clobber=False):
         t = self.local(p.local, bb, idx, ignore_clobber)
